@@ -295,3 +295,35 @@ func VerifC16SortRowsByPk() {
 	nd.Assert("c16.sort-rows.same-rows", all)
 	c16AssertInv("c16.sort-rows", td)
 }
+
+// TRUNCATE followed by inserts: truncate() must leave no index entry behind —
+// a stale entry still names a storage position, and the next rows inserted
+// occupy exactly those positions. From an arbitrary valid state (0..3 rows):
+// truncate, then 0..2 inserts through the real insertHelper; afterwards the
+// invariant holds and the rows are exactly the inserted ones.
+// (Added after the seeded change /verif/seeded/C16-truncate-stale-index — a
+// range-variable slip that cleared nothing — was missed by the single-step
+// harnesses.)
+func VerifC16TruncateThenInsert() {
+	n := nd.IntRange("tr.n", 0, 3)
+	td, _ := c16State(n, false)
+	td = td.truncate(nil, td.schema)
+	nd.Reach("c16.truncate")
+	nd.Assert("c16.truncate.rows-gone", len(td.partitions) == 1 && len(td.partitions["0"]) == 0)
+	nd.Assert("c16.truncate.index-entries-gone", len(td.secondaryIndexStorage[indexName(c16Idx)]) == 0)
+	k := nd.IntRange("tr.inserts", 0, 2)
+	pke := c14Pke(td)
+	var want []c16Row
+	for i := 0; i < k; i++ {
+		r := c16Row{pk: int64(10 + i), k: nd.Int64("tr.k" + string(rune('0'+i)))}
+		err := pke.insertHelper(nil, td, sql.Row{r.pk, r.key()})
+		nd.Assert("c16.truncate.insert-no-error", err == nil)
+		want = append(want, r)
+	}
+	nd.Assert("c16.truncate.rows", c16SameRows(td, want))
+	// after truncate() the storage map may legitimately have no slot for the index until the
+	// first insert, so only the entry count is compared, not the number of map slots
+	_, shape, distinct, current := c16Inv(td)
+	entries := len(td.secondaryIndexStorage[indexName(c16Idx)])
+	nd.Assert("c16.truncate.index-consistent", entries == len(want) && shape && distinct && current)
+}
